@@ -68,6 +68,27 @@ def run_tlc(subdir, module, cfg=None, env=None, workers=1, xss="512m", xmx="6g",
 def validate_traces(module, trace_files, scratch, parallel=16, timeout=3000, xmx="3g"):
     """Run one TLC process per trace file (in parallel). Returns list of (file, TlcResult, resultdict|None)."""
     import concurrent.futures as cf
+    # TLC cannot follow a behaviour of 65,536 or more states, and a trace is one behaviour: long traces are cut into parts of at most
+    # MAXL events, at the start of a session (sessions never span parts; call traces have one independent event per line)
+    MAXL = 40000
+    parts = []
+    for tf in trace_files:
+        with open(tf) as f:
+            lines = f.readlines()
+        if len(lines) <= MAXL:
+            parts.append(tf); continue
+        has_open = any('"e":"Open"' in l for l in lines[:5000])
+        start = 0; k = 0
+        while start < len(lines):
+            end = min(start + MAXL, len(lines))
+            if has_open:
+                while end < len(lines) and '"e":"Open"' not in lines[end]:
+                    end += 1
+            pf = "%s.part%03d" % (tf, k); k += 1
+            with open(pf, "w") as g:
+                g.writelines(lines[start:end])
+            parts.append(pf); start = end
+    trace_files = parts
     def one(tf):
         out = tf + ".result.json"
         if os.path.exists(out):
